@@ -251,6 +251,15 @@ func ReadReplay(path string) (body []string, comments []string, err error) {
 	return
 }
 
+// RepoRoot is the go-youchain tree the harness was built against (/repo, or a scratch worktree in
+// mutation self-tests). Translators and anything else that reads sources must use it.
+func RepoRoot() string {
+	if r := os.Getenv("VERIF_REPO"); r != "" {
+		return r
+	}
+	return "/repo"
+}
+
 // CorpusFiles lists /verif/corpus/<prop>/* sorted.
 func CorpusFiles(prop string) []string {
 	root := os.Getenv("VERIF_ROOT")
